@@ -782,6 +782,9 @@ class Tr:
                         # BA: `best_agent = copy.deepcopy(agent)` rebinds the *local* name; the space's best agent is untouched
                         env[name] = SV('roagent')
                         return []
+                    if o.kind == 'best':
+                        self.err(node, 'deep copy of the best agent used as an agent: space.best_agent carries the default Agent bounds '
+                                       '[0, 1], not the bounds of its space, so check_limits() of the copy clips to the wrong box')
                     env[name] = AG(('Tr',))
                     return [('NewTrial', ref)]
                 if o.kind == 'pop':
@@ -854,6 +857,9 @@ class Tr:
                 dref = self.slot_ref(target.slice, env, node)
                 v = self.ev(value, env)
                 if v.kind == 'deepcopy' and v.of.kind in ('agent', 'best'):
+                    if v.of.kind == 'best':
+                        self.err(node, 'population slot assigned a deep copy of the best agent: space.best_agent carries the default Agent '
+                                       'bounds [0, 1], not the bounds of its space, so check_limits() of the copy clips to the wrong box')
                     sref = v.of.ref if v.of.kind == 'agent' else ('Best',)
                     return [('Store', dref, sref)]
                 self.err(node, 'population slot assigned from %r (not a deep copy of an agent)' % v)
